@@ -15,7 +15,7 @@ OUT=work/campaign.txt; : > $OUT
 run_one() {
   local name="$1" patch="$2" prop="$3"; shift 3
   git -C "$REPO" checkout HEAD -- . 2>/dev/null
-  if ! git -C "$REPO" apply "$VERIF/$patch" 2>/dev/null; then echo "$name $prop APPLY-FAILED" | tee -a $OUT; return; fi
+  if ! git -C "$REPO" apply "$VERIF/$patch" 2>/dev/null && ! git -C "$REPO" apply --3way "$VERIF/$patch" 2>/dev/null; then echo "$name $prop APPLY-FAILED" | tee -a $OUT; return; fi
   local log=work/campaign-$name.log
   ./check $prop quick "$@" > $log 2>&1; local rc=$?
   git -C "$REPO" checkout HEAD -- .
